@@ -2226,6 +2226,10 @@ class Module:
             raise Unsupported("nested loops")
         nats = [f for f, t in self.structs.get(cx.struct, []) if t == 'Nat']
         fuel = " + ".join(f"self.{f}" for f in nats) + " + 1" if nats else "1"
+        if getattr(self, 'let_match', False) and cx.consts:
+            # tuple units: the length is the const generic, not a field (a `loop` over the children takes at most N + 1 turns
+            # beyond its counters)
+            fuel = " + ".join(cx.consts) + " + " + fuel
         nvar = sum(len(self.enums[t]) for f, t in self.structs.get(cx.struct, []) if t in self.enums)
         if nvar:
             fuel = f"{nvar} + {fuel}"       # a state machine over an enum: one turn of the loop per state
@@ -2701,6 +2705,8 @@ UNITS = [
     ('TryJoinT', [('@tuple/try_join.rs', ['TryJoin'])]),
     ('MergeT', [('@tuple/merge.rs', ['Merge'])]),
     ('ZipT', [('@tuple/zip.rs', ['Zip'])]),
+    ('RaceT', [('@tuple/race.rs', ['Race'])]),
+    ('ChainT', [('@tuple/chain.rs', ['Chain'])]),
     ('WaitF', [('src/future/wait_until.rs', ['State', 'WaitUntil'])]),
     ('WaitS', [('src/stream/wait_until.rs', ['State', 'WaitUntil'])]),
 ]
@@ -2709,7 +2715,7 @@ SKIP_FNS = {('InlineWakerArray', 'new'), ('InlineWakerVec', 'new')}
 GROUPS = {'Std': ['StdArr', 'StdVec'], 'Dir': ['DirArr', 'DirVec'], 'Idx': ['Idx'], 'PS': ['PS'], 'Grp': ['GrpF', 'GrpS'],
           'Fam': ['MergeV', 'RaceV'], 'Fam2': ['JoinV'], 'Fam3': ['TryJoinV'], 'Fam4': ['ZipV'], 'Fam5': ['ChainV'],
           'Arr1': ['JoinA'], 'Arr2': ['TryJoinA'], 'Arr3': ['MergeA'], 'Arr4': ['ZipA'], 'Arr5': ['ChainA'], 'Arr6': ['RaceA'], 'Arr7': ['RaceOkA'], 'Wait': ['WaitF', 'WaitS'],
-          'Tup1': ['JoinT'], 'Tup2': ['TryJoinT'], 'Tup3': ['MergeT'], 'Tup4': ['ZipT']}
+          'Tup1': ['JoinT'], 'Tup2': ['TryJoinT'], 'Tup3': ['MergeT'], 'Tup4': ['ZipT'], 'Tup5': ['RaceT'], 'Tup6': ['ChainT']}
 GROUP_IMPORTS = {'Std': ['Fc.Kernel'], 'Dir': ['Fc.Kernel'], 'Grp': ['FcGen.KSrcStd', 'FcGen.KSrcPS', 'Fc.RustEnv'],
                  'Fam': ['FcGen.KSrcStd', 'FcGen.KSrcPS', 'FcGen.KSrcIdx', 'Fc.RustEnv'],
                  'Fam2': ['FcGen.KSrcStd', 'FcGen.KSrcPS', 'Fc.RustEnv'],
@@ -2722,16 +2728,16 @@ GROUP_IMPORTS = {'Std': ['Fc.Kernel'], 'Dir': ['Fc.Kernel'], 'Grp': ['FcGen.KSrc
                  'Arr7': ['FcGen.KSrcPS', 'Fc.RustEnv'], 'Wait': ['Fc.RustEnv'],
                  'Tup1': ['FcGen.KSrcStd', 'FcGen.KSrcPS', 'Fc.RustEnv'], 'Tup2': ['FcGen.KSrcStd', 'FcGen.KSrcPS', 'Fc.RustEnv'],
                  'Tup3': ['FcGen.KSrcStd', 'FcGen.KSrcPS', 'FcGen.KSrcIdx', 'Fc.RustEnv'],
-                 'Tup4': ['FcGen.KSrcStd', 'FcGen.KSrcPS', 'Fc.RustEnv']}
+                 'Tup4': ['FcGen.KSrcStd', 'FcGen.KSrcPS', 'Fc.RustEnv'], 'Tup5': ['FcGen.KSrcIdx', 'Fc.RustEnv'], 'Tup6': ['Fc.RustEnv']}
 GROUP_DEPS = {'Grp': ['Std', 'PS'], 'Fam': ['Std', 'PS', 'Idx'], 'GrpPoll': ['Grp'], 'RaceV': ['Fam'], 'MergeV': ['Fam'], 'JoinV': ['Fam2'], 'TryJoinV': ['Fam3'], 'ChainV': ['Fam5', 'Fam4'], 'ZipV': ['Fam4', 'Fam5'], 'Fam2': ['Std', 'PS'], 'Fam3': ['Std', 'PS'], 'Fam4': ['Std', 'PS'], 'Fam5': [],
               'Arr1': ['Std', 'PS'], 'Arr2': ['Std', 'PS'], 'Arr3': ['Std', 'PS', 'Idx'], 'Arr4': ['Std', 'PS'], 'Arr5': [],
-              'Arr6': ['Idx'], 'Arr7': ['PS'], 'Tup1': ['Std', 'PS'], 'Tup2': ['Std', 'PS'], 'Tup3': ['Std', 'PS', 'Idx'], 'Tup4': ['Std', 'PS'],
+              'Arr6': ['Idx'], 'Arr7': ['PS'], 'Tup1': ['Std', 'PS'], 'Tup2': ['Std', 'PS'], 'Tup3': ['Std', 'PS', 'Idx'], 'Tup4': ['Std', 'PS'], 'Tup5': ['Idx'], 'Tup6': [],
               # the array proofs reuse the container-independent lemmas of the Vec proof of the SAME family (the lemma files
               # import that family's Vec statements, hence its generated file)
               'JoinA': ['Arr1', 'Fam2'], 'TryJoinA': ['Arr2', 'Fam3'], 'MergeA': ['Arr3', 'Fam'], 'ZipA': ['Arr4'],
               'ChainA': ['Arr5', 'Idx'], 'RaceA': ['Arr6', 'Fam'], 'RaceOkA': ['Arr7'],
               # the tuple ties reuse the container-independent lemmas of the Vec proof of the same family
-              'JoinT': ['Tup1', 'Fam2'], 'TryJoinT': ['Tup2', 'Fam3'], 'MergeT': ['Tup3', 'Fam'], 'ZipT': ['Tup4', 'Fam4'],
+              'JoinT': ['Tup1', 'Fam2'], 'TryJoinT': ['Tup2', 'Fam3'], 'MergeT': ['Tup3', 'Fam'], 'ZipT': ['Tup4', 'Fam4'], 'RaceT': ['Tup5', 'Fam'], 'ChainT': ['Tup6', 'Fam5', 'Fam4'],
               'JoinVD': ['Fam2D', 'Fam2', 'Dir'], 'JoinAD': ['Arr1D', 'Arr1', 'Fam2', 'Dir'],
               'TryJoinVD': ['Fam3D', 'Fam3', 'Dir'], 'TryJoinAD': ['Arr2D', 'Arr2', 'Fam3', 'Dir'],
               'MergeVD': ['FamD', 'Fam', 'Dir'], 'MergeAD': ['Arr3D', 'Arr3', 'Fam', 'Dir'],
@@ -2743,7 +2749,7 @@ DIR_FLAVOUR = {'Grp': ['GrpF', 'GrpS'], 'Fam': ['MergeV', 'RaceV'], 'Fam2': ['Jo
 # groups of tie theorems that have no generated file of their own (they talk about functions of another group's file)
 VIRTUAL_GROUPS = {'GrpPoll': ['GrpF', 'GrpS'], 'RaceV': ['RaceV'], 'MergeV': ['MergeV'], 'JoinV': ['JoinV'], 'ChainV': ['ChainV'], 'ZipV': ['ZipV'], 'TryJoinV': ['TryJoinV'],
                   'JoinA': ['JoinA'], 'TryJoinA': ['TryJoinA'], 'MergeA': ['MergeA'], 'ZipA': ['ZipA'], 'ChainA': ['ChainA'],
-                  'RaceA': ['RaceA'], 'RaceOkA': ['RaceOkA'], 'JoinT': ['JoinT'], 'TryJoinT': ['TryJoinT'], 'MergeT': ['MergeT'], 'ZipT': ['ZipT'],
+                  'RaceA': ['RaceA'], 'RaceOkA': ['RaceOkA'], 'JoinT': ['JoinT'], 'TryJoinT': ['TryJoinT'], 'MergeT': ['MergeT'], 'ZipT': ['ZipT'], 'RaceT': ['RaceT'], 'ChainT': ['ChainT'],
                   # the no_std / alloc-only flavour (FcProps/KTie<Fam>{V,A}D.lean): the same translated functions
                   'JoinVD': ['JoinV'], 'JoinAD': ['JoinA'], 'TryJoinVD': ['TryJoinV'], 'TryJoinAD': ['TryJoinA'],
                   'MergeVD': ['MergeV'], 'MergeAD': ['MergeA'], 'ZipVD': ['ZipV'], 'ZipAD': ['ZipA'],
@@ -2836,6 +2842,8 @@ REQUIRED = {
     'Tup1': ['JoinT.Join.poll', 'JoinT.Join.drop', 'JoinT.Join.new'],
     'JoinT': ['JoinT.Join.poll', 'JoinT.Join.drop', 'JoinT.Join.new'],
     'TryJoinT': ['TryJoinT.TryJoin.poll', 'TryJoinT.TryJoin.drop', 'TryJoinT.TryJoin.new'],
+    'Tup5': ['RaceT.Race.poll'], 'RaceT': ['RaceT.Race.poll'],
+    'Tup6': ['ChainT.Chain.poll_next'], 'ChainT': ['ChainT.Chain.poll_next'],
     'Tup4': ['ZipT.Zip.poll_next', 'ZipT.Zip.drop', 'ZipT.Zip.new'], 'ZipT': ['ZipT.Zip.poll_next', 'ZipT.Zip.drop', 'ZipT.Zip.new'],
     'Tup3': ['MergeT.Merge.poll_next', 'MergeT.Merge.new'], 'MergeT': ['MergeT.Merge.poll_next', 'MergeT.Merge.new'],
     'Tup2': ['TryJoinT.TryJoin.poll', 'TryJoinT.TryJoin.drop', 'TryJoinT.TryJoin.new'],
